@@ -108,10 +108,10 @@ EXPORT errno_t _strerror_s_chk(char *dest, rsize_t dmax, errno_t errnum,
     if (likely(len < dmax)) {
         if (errnum >= ESNULLP && errnum <= ESLAST) {
             const char *tmpbuf = errmsgs_s[errnum - ESNULLP];
-            strcpy_s(dest, dmax, tmpbuf);
+            _strcpy_s_chk(dest, dmax, tmpbuf, destbos);
         } else {
             const char *tmpbuf = strerror(errnum);
-            strcpy_s(dest, dmax, tmpbuf);
+            _strcpy_s_chk(dest, dmax, tmpbuf, destbos);
         }
     } else if (dmax > 3) { /* truncate */
         const char *tmpbuf = (errnum >= ESNULLP && errnum <= ESLAST)
@@ -120,9 +120,9 @@ EXPORT errno_t _strerror_s_chk(char *dest, rsize_t dmax, errno_t errnum,
 #if defined(TEST_MSVCRT) && defined(HAVE_STRNCPY_S)
         strncpy(dest, tmpbuf, dmax - 4);
 #else
-        strncpy_s(dest, dmax, tmpbuf, dmax - 4);
+        _strncpy_s_chk(dest, dmax, tmpbuf, dmax - 4, destbos, BOS_UNKNOWN);
 #endif
-        strcat_s(dest, dmax, "...");
+        _strcat_s_chk(dest, dmax, "...", destbos);
     } else {
         invoke_safe_str_constraint_handler("strerror_s: dmax is too small",
                                            dest, ESLEMIN);
